@@ -38,6 +38,14 @@ def gen(rng):
     L = G.make_layout(rng, trash_states=ts, alt_states=als, xdg=xdg)
     steps = L['steps']
     home, uid, env = L['home'], L['uid'], dict(L['env'])
+    for v_ in L['vols']:
+        # the per-user directory may already be there from earlier days (when .Trash was still fine): what counts is the
+        # state of $topdir/.Trash NOW
+        if L['trash'][v_]['top'] in ('sticky', 'nonsticky', 'nonsticky_sgid', 'nonsticky_suid', 'link_sticky', 'link_nonsticky') and rng.random() < 0.5:
+            steps.append(['d', v_ + '/.Trash/%d' % uid, 0o700])
+            if rng.random() < 0.5:
+                steps.append(['d', v_ + '/.Trash/%d/files' % uid, 0o700])
+                steps.append(['d', v_ + '/.Trash/%d/info' % uid, 0o700])
     place = rng.choice(['home', 'home', 'vol', 'vol', 'nested', 'via_link', 'link_parent', 'root_tmp', 'link_arg_slash'])
     if place in ('vol', 'via_link', 'link_arg_slash') and not L['vols']:
         place = 'home'
@@ -198,7 +206,7 @@ def check(sim, case, st):
             # modes of what was created
             for p in (T, T + '/files', T + '/info'):
                 if p not in snap0 and p in snap1 and snap1[p][0] == 'd':
-                    if snap1[p][1] != 0o700:
+                    if snap1[p][1] & 0o777 != 0o700:        # (a directory made inside a setgid directory inherits the setgid bit: 2700 is private too)
                         res.append(('C07/created-mode/%s' % sigctx, 'created %r with mode %o under umask %o %s' % (p, snap1[p][1], case.get('umask', 0o022), ctx)))
                     else:
                         st.probes['created-0700'] += 1
@@ -239,7 +247,7 @@ def check(sim, case, st):
             wrong = []
             for T in ML.trash_dirs_in(snapk):
                 for p in (T, T + '/files', T + '/info'):
-                    if p not in before and p in snapk and snapk[p][0] == 'd' and snapk[p][1] != 0o700:
+                    if p not in before and p in snapk and snapk[p][0] == 'd' and snapk[p][1] & 0o777 != 0o700:
                         wrong.append((p, snapk[p][1]))
             st.probes['crash-points-with-modes-checked'] += 1
             if wrong:
